@@ -179,6 +179,132 @@ impl Cfg {
     }
 }
 
+/// "An admitted peer is registered exactly once, under the identity it announced" - also when that identity is already
+/// in the socket's table: a first connection announces an identity and is admitted; a second one announces the same
+/// identity while the first is still open (`first_open`) or after it has closed without the socket having noticed.
+/// Both must be admitted, and the second must be REGISTERED: the socket type's own traffic works with it.
+fn twin_scenario(local: Ty, id_len: usize, first_open: bool) -> Verdict {
+    world::reset(world::WorldCfg { nested_env: false, yields: false, select: false, policy: 0, coop: false });
+    let id: Vec<u8> = (0..id_len).map(|i| b'a' + (i % 26) as u8).collect();
+    let v1 = e3::raw_conn("V1");
+    let v2 = e3::raw_conn("V2");
+    for c in [v1, v2] {
+        c.send(&rc::handshake(local.peer_type(), Some(&id)));
+    }
+    // what the second connection says once it is in
+    match local {
+        Ty::Pub | Ty::XPub => v2.send(&rc::encode_message(&[vec![1u8]])),
+        Ty::Pull | Ty::Dealer | Ty::Router | Ty::Sub => v2.send(&rc::encode_message(&[b"from-second".to_vec()])),
+        Ty::Rep => v2.send(&rc::encode_message(&[vec![], b"from-second".to_vec()])),
+        Ty::Req => e3::make_echo_peer(v2),
+        Ty::Push => {}
+    }
+    if !first_open {
+        v1.eof();
+    }
+    let obs = std::rc::Rc::new(std::cell::RefCell::new(Vec::<String>::new()));
+    let obs2 = obs.clone();
+    let id2 = id.clone();
+    world::spawn_app("app", async move {
+        let mut sock = AnySocket::new(local, None);
+        for (name, c) in [("first", v1), ("second", v2)] {
+            let r = e3::attach_raw(sock.backend(), c).await;
+            obs2.borrow_mut().push(format!("attach({}) -> {}{}", name, e3::ok_or_err(&r), match &r { Ok(i) if i.to_vec() != id2 => " under another identity", _ => "" }));
+        }
+        let before = (world::tap_len(v1.from_lib), world::tap_len(v2.from_lib));
+        match local {
+            Ty::Router => {
+                if let Some(r) = world::until_idle(sock.recv()).await {
+                    obs2.borrow_mut().push(format!("recv -> {}", e3::show_result(&r)));
+                }
+                let s = sock.send(crate::e1::msg(&[id2.clone(), b"x".to_vec()])).await;
+                obs2.borrow_mut().push(format!("send(to the identity) -> {}", e3::ok_or_err(&s)));
+            }
+            Ty::Push | Ty::Dealer => {
+                if local == Ty::Dealer {
+                    if let Some(r) = world::until_idle(sock.recv()).await {
+                        obs2.borrow_mut().push(format!("recv -> {}", e3::show_result(&r)));
+                    }
+                }
+                for i in 0..3 {
+                    let s = sock.send(crate::e1::msg(&[format!("m{}", i).into_bytes()])).await;
+                    obs2.borrow_mut().push(format!("send#{} -> {}", i, e3::ok_or_err(&s)));
+                }
+            }
+            Ty::Req => {
+                let s = sock.send(crate::e1::msg(&[b"q".to_vec()])).await;
+                obs2.borrow_mut().push(format!("send -> {}", e3::ok_or_err(&s)));
+                let r = world::until_idle(sock.recv()).await;
+                obs2.borrow_mut().push(format!("recv -> {}", r.as_ref().map(e3::show_result).unwrap_or_else(|| "pending".into())));
+            }
+            Ty::Pub | Ty::XPub => {
+                if local == Ty::XPub {
+                    let _ = world::until_idle(sock.recv()).await;
+                } else {
+                    world::idle().await;
+                }
+                let s = sock.send(crate::e1::msg(&[b"news".to_vec()])).await;
+                obs2.borrow_mut().push(format!("publish -> {}", e3::ok_or_err(&s)));
+            }
+            Ty::Rep => {
+                let r = world::until_idle(sock.recv()).await;
+                obs2.borrow_mut().push(format!("recv -> {}", r.as_ref().map(e3::show_result).unwrap_or_else(|| "pending".into())));
+                let s = sock.send(crate::e1::msg(&[b"a".to_vec()])).await;
+                obs2.borrow_mut().push(format!("reply -> {}", e3::ok_or_err(&s)));
+            }
+            Ty::Pull => {
+                let r = world::until_idle(sock.recv()).await;
+                obs2.borrow_mut().push(format!("recv -> {}", r.as_ref().map(e3::show_result).unwrap_or_else(|| "pending".into())));
+            }
+            Ty::Sub => {
+                if let AnySocket::Sub(s) = &mut sock {
+                    let r = s.subscribe("t").await;
+                    obs2.borrow_mut().push(format!("subscribe -> {}", e3::ok_or_err(&r)));
+                }
+                let r = world::until_idle(sock.recv()).await;
+                obs2.borrow_mut().push(format!("recv -> {}", r.as_ref().map(e3::show_result).unwrap_or_else(|| "pending".into())));
+            }
+        }
+        world::idle().await;
+        obs2.borrow_mut().push(format!("wires: first+{} second+{}", world::tap_len(v1.from_lib) - before.0, if world::tap_len(v2.from_lib) > before.1 { "some" } else { "0" }));
+        world::set_cond("done");
+        world::wait_cond("never").await;
+        drop(sock);
+    });
+    let end = world::run(e3::HORIZON);
+    let mut v = Verdict::default();
+    v.truncated = end != world::RunEnd::Quiescent;
+    let what = format!("local {}: a second connection announces the {}-byte identity of a first one that {}", local.name(), id_len, if first_open { "is still open" } else { "has closed without the socket having noticed" });
+    for p in world::panics() {
+        v.violate("panic", format!("{}: {}", what, p));
+    }
+    if v.truncated {
+        v.violate("spin", format!("{}: no quiescence", what));
+    }
+    let o = obs.borrow().clone();
+    if world::panics().is_empty() && !v.truncated {
+        if !world::cond("done") {
+            v.violate("twin/app-stuck", format!("{}: {:?}", what, o));
+        } else {
+            if o.iter().take(2).any(|l| !l.ends_with("-> Ok")) {
+                v.violate("twin/not-admitted-under-its-identity", format!("{}: {:?}", what, &o[..2.min(o.len())]));
+            }
+            // the second connection is registered: what the socket sends reaches it / what it sent is received
+            let sends_ok = o.iter().filter(|l| l.starts_with("send") || l.starts_with("publish") || l.starts_with("reply") || l.starts_with("subscribe")).all(|l| l.ends_with("-> Ok"));
+            let wrote_to_second = o.last().map(|l| l.ends_with("second+some")).unwrap_or(false);
+            let wrote_to_first = !o.last().map(|l| l.contains("first+0")).unwrap_or(true);
+            let received_from_second = o.iter().any(|l| l.starts_with("recv -> Ok") && l.contains("66726f6d2d7365636f6e64")) || (local == Ty::Req && o.iter().any(|l| l.starts_with("recv -> Ok")));
+            let sends = !matches!(local, Ty::Pull);
+            let receives = matches!(local, Ty::Pull | Ty::Dealer | Ty::Router | Ty::Rep | Ty::Req | Ty::Sub);
+            if (sends && (!sends_ok || !wrote_to_second)) || (receives && !received_from_second) || (sends && wrote_to_first && !first_open) {
+                v.violate("twin/admitted-but-not-registered", format!("{}: both were admitted, but the socket's own traffic does not work with the second one: {:?}", what, o));
+            }
+        }
+    }
+    v.outcome_hash = rc::fnv(o.join("|").as_bytes());
+    e3::finish(v)
+}
+
 fn scenario(cfg: &Cfg) -> Verdict {
     world::reset(world::WorldCfg {
         nested_env: false,
@@ -455,6 +581,10 @@ pub fn run(tier: Tier, replay: Option<String>) -> i32 {
             return if r == Ok(rfc_compatible(a.as_str(), b.as_str())) { 0 } else { 1 };
         }
         return crate::replay::replay_e3(&v, |p| {
+            if p["scenario"] == "twin" {
+                let (local, id_len, first_open) = (Ty::from_name(p["local"].as_str()?)?, p["id_len"].as_u64()? as usize, p["first_open"].as_bool()?);
+                return Some(std::sync::Arc::new(move || twin_scenario(local, id_len, first_open)) as zvcore::explore::Scenario);
+            }
             let cfg = Cfg::from_json(p)?;
             Some(std::sync::Arc::new(move || scenario(&cfg)) as zvcore::explore::Scenario)
         });
@@ -600,6 +730,14 @@ pub fn run(tier: Tier, replay: Option<String>) -> i32 {
         }
     }
     ck.cov("handshakes_delivered_in_two_pieces", n_cuts);
+    // an identity that is already in the table
+    for local in ALL_TYPES {
+        for id_len in [1usize, 16, 255] {
+            for first_open in [true, false] {
+                jobs.push(e3::job(format!("C04/twin/{}/{}/{}", local.name(), id_len, first_open), json!({"scenario":"twin","local":local.name(),"id_len":id_len,"first_open":first_open}), 0, 4, move || twin_scenario(local, id_len, first_open)));
+            }
+        }
+    }
     let n_jobs = jobs.len() as u64;
     e3::run_jobs_into(&mut ck, jobs, false);
     let ex = ck.coverage.get("e3_executions").and_then(|v| v.as_u64()).unwrap_or(0);
@@ -612,7 +750,7 @@ pub fn run(tier: Tier, replay: Option<String>) -> i32 {
     ck.cov("compat_queries", n_q);
     ck.cov("identity_length_sweep_handshakes", n_idsweep);
     ck.cov("exhaustive", true);
-    ck.cov("explanation", "complete product 9 local types x 15 peer Socket-Type values (12 names, FOO, req, missing) x 5 versions x 5 mechanisms x 3 signature variants x 5 identity options x 5 first items (READY / another command / a message / PING then READY / SUBSCRIBE then READY) = 253125 real handshakes over in-memory pipes, each compared with the reference admission predicate; every configuration the reference admits is run a second time with a behavioural registration probe (second peer, strict alternation of 4 sends / exactly-once publish / routed send / reply); plus the identity axis in full (every Identity length 2..=254 and 257..=300 for every local type against each of the 12 peer type names, otherwise well-formed; admitted ones with the registration probe); plus a segmentation axis (for every local type its compatible peers in 4 version/identity/first-item combinations and a few that must be refused: the peer's bytes arrive in two pieces, the first of every length; coverage.handshakes_delivered_in_two_pieces); plus all 144 compatible() queries under catch_unwind against the RFC table, incl. symmetry. states = configurations; transitions = handshake executions.");
+    ck.cov("explanation", "complete product 9 local types x 15 peer Socket-Type values (12 names, FOO, req, missing) x 5 versions x 5 mechanisms x 3 signature variants x 5 identity options x 5 first items (READY / another command / a message / PING then READY / SUBSCRIBE then READY) = 253125 real handshakes over in-memory pipes, each compared with the reference admission predicate; every configuration the reference admits is run a second time with a behavioural registration probe (second peer, strict alternation of 4 sends / exactly-once publish / routed send / reply); plus the identity axis in full (every Identity length 2..=254 and 257..=300 for every local type against each of the 12 peer type names, otherwise well-formed; admitted ones with the registration probe); plus a segmentation axis (for every local type its compatible peers in 4 version/identity/first-item combinations and a few that must be refused: the peer's bytes arrive in two pieces, the first of every length; coverage.handshakes_delivered_in_two_pieces); plus, for every local type, a second connection announcing an identity (1 / 16 / 255 bytes) that is already in the table (first connection still open, or closed unnoticed): both admitted, and the socket's own traffic works with the second; plus all 144 compatible() queries under catch_unwind against the RFC table, incl. symmetry. states = configurations; transitions = handshake executions.");
     ck.assume("the handshake code is sequential: no scheduling choice influences admission (one execution per configuration, default schedule)");
     ck.assume("RFC compatibility table transcribed in c04.rs::rfc_compatible");
     ck.conclude()
